@@ -70,6 +70,8 @@ pub struct Opts {
     /// spacing mode: 0 = one space everywhere, 1 = pretty (new line per marked token, indented), 2 = random mixture,
     /// 3 = every gap a line break, 4 = CRLF pretty with tabs
     pub spacing_mode: u32,
+    /// the line breaks INSIDE multi-line tokens (block comments, multi-line literals) are CRLF (a CRLF source file)
+    pub crlf_tokens: bool,
 }
 
 #[derive(Debug, Clone)]
@@ -146,7 +148,7 @@ pub fn render(p: &Program, deco: u64, spacing: u64, o: &Opts) -> Rendered {
                     kind_of.insert(key, kind);
                 }
                 let mut r = gap_rng(deco, ord, 77);
-                toks.push(if t.starts_with("ML") && t.len() <= 4 { ml_literal(t, &mut r) } else { t.clone() });
+                toks.push(if t.starts_with("ML") && t.len() <= 4 { let l = ml_literal(t, &mut r); if o.crlf_tokens { l.replace('\n', "\r\n") } else { l } } else { t.clone() });
             }
             Item::End(key) => {
                 if let (Some(b), Some(k)) = (begin_of.get(key), kind_of.get(key)) {
@@ -209,7 +211,7 @@ pub fn render(p: &Program, deco: u64, spacing: u64, o: &Opts) -> Rendered {
         } else if o.comments && x >= 230 && x < 250 {
             Deco::InlineBlock(block_comments[r.gen_range(0..block_comments.len())].to_string())
         } else if o.comments && is_marked(i) && x >= 250 && x < 280 {
-            Deco::MultiBlock("{ multi\n  line }".to_string())
+            Deco::MultiBlock(if o.crlf_tokens { "{ multi\r\n  line\r\n  and more }" } else { "{ multi\n  line }" }.to_string())
         } else if o.comments && is_marked(i) && x >= 280 && x < 330 {
             // (a comment on its own line in the middle of a construct is a placement that several parser heuristics do not
             // see through - see DESIGN.md, findings; own-line comments are generated between statements / declarations)
